@@ -22,7 +22,7 @@ ID = 'C07'
 LEVEL = 'exploration'
 CONFIRM = False
 RULE = ('a corpus of documents (random grids over the full alphabet, bundled diagrams with legends, quoted text, circles) x entry '
-        'points/settings, converted repeatedly in fresh processes in shuffled orders, and by 1..16 threads released together in '
+        'points x settings that differ from call to call (background, fill colour, scale), converted repeatedly in fresh processes in shuffled orders, and by 1..16 threads released together in '
         'fresh processes (first-use race, with and without a delay inside the table initialisers); non-trivial = distinct '
         '(process, thread, key) observation compared against the reference')
 ASSUMPTIONS = ['schedules are sampled by stress and injected delays, not enumerated',
@@ -50,16 +50,23 @@ def corpus(seed, n, circles):
             d += '# Legend:\na = {fill:red}\nb = {stroke:blue}\n'
         docs.append(d)
     keys = []
+    colors = ['white', 'black', 'navy', 'orange', '#abc', 'red']
     for i, d in enumerate(docs[:n]):
-        keys.append((i % 3 if i % 5 else 3, d))   # entries 0,1,2 and 3 (default settings)
+        if i % 2:
+            keys.append((i % 3, d, 'white', 'black', 8.0))   # entries 0,1,2: the settings are the defaults
+        else:
+            # the settings entry point with settings that differ from call to call
+            keys.append((3, d, rng.choice(colors), rng.choice(colors), rng.choice([8.0, 8.0, 1.0, 20.0])))
     return keys
 
 
 def write_corpus(path, keys):
     with open(path, 'wb') as f:
-        for entry, d in keys:
-            b = d.encode('utf-8')
-            f.write(struct.pack('<I', entry) + struct.pack('<I', len(b)) + b)
+        for entry, d, bg, fill, scale in keys:
+            for i, t in enumerate((d, bg, fill)):
+                b = t.encode('utf-8')
+                f.write((struct.pack('<I', entry) if i == 0 else b'') + struct.pack('<I', len(b)) + b)
+            f.write(struct.pack('<f', scale))
 
 
 def read_race(path):
@@ -96,14 +103,14 @@ def run_shard(ctx, shard):
         for rep in range(shard['reps']):
             rng.shuffle(order)
             for i in order:
-                entry, doc = keys[i]
-                r = ctx.conv(doc, entry=entry, flags=7)
+                entry, doc, bg, fill, scale = keys[i]
+                r = ctx.conv(doc, entry=entry, flags=7, bg=bg, fill=fill, scale=scale)
                 ctx.note(key_of(shard['name'], rep, i), True)
                 if r.prop_cells_max >= 6:
                     orders_seen.setdefault(i, set()).add(r.prop_order_hash)
                 out = r.out.encode('utf-8', 'surrogateescape') if r.ok else b'PANIC ' + r.out.encode()
                 if out != ref[i]:
-                    ctx._violation({'doc': doc, 'entry': entry, 'where': shard['name'], 'repetition': rep},
+                    ctx._violation({'doc': doc, 'entry': entry, 'bg': bg, 'fill': fill, 'scale': scale, 'where': shard['name'], 'repetition': rep},
                                    'output differs from the reference process (digest %s vs %s) in %s, repetition %d, after a history of %d conversions%s' % (
                                        digest(out), digest(ref[i]), shard['name'], rep, ctx.calls, first_diff(ref[i], out)))
         ctx.tag('processes')
@@ -144,8 +151,8 @@ def run_shard(ctx, shard):
         ctx.note(key_of(shard['name'], t, i), True)
         out = body if st == 0 else b'PANIC ' + body
         if out != ref[i]:
-            entry, doc = keys[i]
-            ctx._violation({'doc': doc, 'entry': entry, 'where': shard['name'], 'thread': t},
+            entry, doc, bg, fill, scale = keys[i]
+            ctx._violation({'doc': doc, 'entry': entry, 'bg': bg, 'fill': fill, 'scale': scale, 'where': shard['name'], 'thread': t},
                            'thread %d of %d racing on first use returned a different document (digest %s vs %s)%s' % (t, T, digest(out), digest(ref[i]), first_diff(ref[i], out)))
     if shard.get('tsan_log'):
         pass
@@ -165,7 +172,9 @@ def check_case(ctx, case):
     for p in range(4):
         d = Driver(ctx.binary)
         for rep in range(5):
-            r = d.conv(case['doc'], entry=case.get('entry', 0), flags=7)
+            if rep % 2:
+                d.conv('+-+\n', entry=3, flags=7, bg='pink', fill='green')   # an unrelated conversion in between
+            r = d.conv(case['doc'], entry=case.get('entry', 0), flags=7, bg=case.get('bg', 'white'), fill=case.get('fill', 'black'), scale=case.get('scale', 8.0))
             outs.add(r.out)
         d.close()
     if len(outs) > 1:
@@ -231,8 +240,11 @@ def execute(run):
     d = Driver(binary)
     d.conv('+\n')
     ref = []
-    for entry, doc in keys:
-        r = d.conv(doc, entry=entry, flags=7)
+    for entry, doc, bg, fill, scale in keys:
+        # every key of the reference is converted in its own fresh process: no history at all
+        if entry == 3:
+            d.restart()
+        r = d.conv(doc, entry=entry, flags=7, bg=bg, fill=fill, scale=scale)
         ref.append(r.out.encode('utf-8', 'surrogateescape') if r.ok else b'PANIC ' + r.out.encode())
     d.close()
     extra = {'keys': keys, 'ref': ref, 'corpus_path': cpath}
